@@ -51,6 +51,7 @@ This is a LATER round. {n} changes were already produced for this property by ot
 
 Important practical note: several agents work in sibling worktrees of the same repository at the same time and `git stash` is SHARED between worktrees — never use `git stash`; use `git diff > file`, `git checkout -- .` and `git apply file` instead.
 Aim for changes whose trigger is as far as possible from what a systematic exhaustive test over small inputs, boundary sizes (128, 256, 4096, 65536), all byte values, repeated use of the same object, several reader/writer kinds and fault injection at every offset would hit. Think of: interactions between two independent features or options; behaviour that depends on the ORDER or COUNT of earlier calls; data-dependent paths keyed on content rather than on kind or length (e.g. a payload that happens to contain a particular byte pattern, a text that happens to look like something else); arithmetic that only breaks for particular combinations of two or three parameters; error paths that leave partially updated state; anything where two values that are usually equal happen to differ; a code path of the property's statement that looks rarely exercised (an exported function or option nobody calls in the tests). Still: it must be a plausible maintainer slip, it must violate the property as stated (re-read the statement: what it does not promise is not a violation), and the existing tests must pass.
+Prefer a function that none of the earlier changes listed above touched. At least one of your two changes should stay strictly inside the domain the property quantifies over (inputs, options and objects the statement names - not an exotic driver, error value or out-of-range argument) and hide there: e.g. a value or length in the middle of a range that nothing marks as special, a particular combination of two or three ordinary arguments, a particular ordinary sequence of three or four calls, a counter or accumulator that only goes wrong after many steps, a table with one wrong entry.
 """
 
 for pid in ids:
